@@ -404,12 +404,18 @@ func (state *state) removeAll(reason error) {
 }
 
 func (state *state) send(msg interface{}, events map[string][]string) error {
+	var firstErr error
 	for qStr, clientSubscriptions := range state.subscriptions {
 		q := state.queries[qStr].q
 
 		match, err := q.Matches(events)
 		if err != nil {
-			return fmt.Errorf("failed to match against query %s: %w", q.String(), err)
+			// A query that cannot be evaluated against these events must not
+			// keep the other subscribers from being served.
+			if firstErr == nil {
+				firstErr = fmt.Errorf("failed to match against query %s: %w", q.String(), err)
+			}
+			continue
 		}
 
 		if match {
@@ -429,5 +435,5 @@ func (state *state) send(msg interface{}, events map[string][]string) error {
 		}
 	}
 
-	return nil
+	return firstErr
 }
